@@ -167,6 +167,7 @@ func runC05(args []string) error {
 		hxs := genHostXPairs(tbl)
 		hxs = append(hxs, genHostXProvenance(r.fork(), tbl)...)
 		hxs = append(hxs, genHostXShadow(r.fork(), tbl)...)
+		hxs = append(hxs, genHostXDefined(r.fork(), tbl)...)
 		for i := 0; i < nHostX; i++ {
 			hxs = append(hxs, genHostXRandom(r.fork(), tbl))
 		}
